@@ -1,7 +1,7 @@
 PROPERTIES = ['C06', 'C02']
 BOUNDS = {
-    'quick': 'length 0..4 (enumerated), element values / predicate parameters / middle / nth symbolic; comparators: default overload, greater, key-only with identity tags (stability); pointer iterators (partition also forward-only, gnome_sort also bidirectional)',
-    'thorough': 'length 0..5 for the quadratic sorts, 0..6 for partition / stable_partition / inplace_merge; additionally the struct element type (key, tag)',
+    'quick': 'length 0..4 (enumerated; merge_sort 0..2 with pointers / 0..3 index-based, exchange_sort and bubble_sort 0..3 with pointers, stable_partition 0..2 pointers / 0..3 index-based), element values / predicate parameters / middle / nth symbolic; comparators: default overload, greater, key-only with identity tags (stability); pointer iterators and an index-based random-access iterator wrapper (partition also forward-only, gnome_sort also bidirectional)',
+    'thorough': 'length 0..5 for sort/stable_sort/insertion_sort/gnome_sort/nth_element/inplace_merge and (index-based iterator) bubble_sort/exchange_sort, 0..4 for partial_sort and pointer exchange_sort/stable_partition(index-based; pointers 0..3), merge_sort 0..3 (pointers) / 0..4 (index-based), partition 0..6; additionally the struct element type (key, tag)',
 }
 ASSUMPTIONS = ['alg_spec: bubble_sort/exchange_sort compare iterators with <; for raw pointers CBMC models the comparison on integer addresses that may wrap, which makes the loop bound of bubble_sort unprovable from length 4 on: those two are checked with pointers up to length 3 and with the index-based random-access iterator wrapper (IT=4) beyond',
                'alg_spec: the sorting family is checked against specification predicates (sorted, permutation by element counts, stability by identity tags in bits 16..31), not against libstdc++ output; inplace_merge assumes both halves sorted (precondition) and is compared with std::merge; stable_partition with std::copy_if + std::remove_copy_if',
@@ -30,8 +30,10 @@ def queries(tier, prop='C06'):
         if e == 'merge_sort': return (2 if q else 3) if it == 0 else (3 if q else 4)
         if e == 'exchange_sort': return (3 if q else 4) if it == 0 else (4 if q else 5)
         if e == 'stable_partition': return ((2 if q else 3) if it == 0 else (3 if q else 4))
-        if e == 'partial_sort' and it == 4 and q: return 3
+        if e == 'partial_sort' and it == 4: return 3 if q else 4
         if e == 'gnome_sort' and it == 2: return 3 if q else 4
+        if e == 'inplace_merge': return 4 if q else 5
+        if e == 'partial_sort': return 4
         if e in LINEAR: return 4 if q else 6
         if e == 'bubble_sort' and it == 0: return 3   # pointer '<' over CBMC's address model: see ASSUMPTIONS
         return 4 if q else 5
